@@ -695,11 +695,15 @@ Proof.
   apply sorted_from_true; auto.
 Qed.
 
-Lemma check_mode_sound l : check_mode l = true -> l <> [] /\ sorted l.
+Lemma check_mode_sound l : check_mode l = true -> sorted l.
 Proof.
-  destruct l as [|a t]; cbn; [discriminate|]. intros H.
-  destruct (sorted_from_sound _ _ H) as [F S]. split; [discriminate|]. constructor; auto.
+  destruct l as [|a t]; cbn; [constructor|]. intros H.
+  destruct (sorted_from_sound _ _ H) as [F S]. constructor; auto.
 Qed.
+
+(* depends on [empty_stream_check] *)
+Lemma check_mode_nonempty l : check_mode l = true -> l <> [].
+Proof. destruct l; [discriminate | discriminate]. Qed.
 
 Lemma loader_accepts_sorted l : sorted l -> allok l -> loader_accepts l = true.
 Proof. intros S Ok. apply loader_from_true; auto. now apply allok_nonneg. Qed.
@@ -810,7 +814,8 @@ Qed.
 
 Theorem winsort_sorted_input n l out : sorted l -> allok l -> winsort n l = Some out -> out = l.
 Proof.
-  intros S Ok. unfold winsort. destruct l as [|e t]; [discriminate|].
+  intros S Ok. unfold winsort. destruct l as [|e t];
+    [first [discriminate | intros H; inversion H; reflexivity]|].
   destruct (wrun n winit (e :: t)) as [w|] eqn:R; [|discriminate].
   intros H; inversion H; subst; clear H.
   apply (wrun_sorted_id n (e :: t) winit w); auto.
@@ -941,7 +946,8 @@ Qed.
 Theorem winsort_permutation_always n evs out : winsort n evs = Some out ->
   Permutation evs out /\ total_size out = total_size evs.
 Proof.
-  unfold winsort. destruct evs as [|e t]; [discriminate|].
+  unfold winsort. destruct evs as [|e t];
+    [first [discriminate | intros H; inversion H; split; auto]|].
   destruct (wrun n winit (e :: t)) as [w|] eqn:R; [|discriminate].
   intros H; inversion H; subst; clear H.
   pose proof (wrun_perm _ _ _ _ R) as P. cbn [winit w_rd rev app] in P.
@@ -970,7 +976,10 @@ Theorem min_clock_spec l : l <> [] ->
 Proof. intros H. split; [apply min_clock_le | now apply min_clock_in]. Qed.
 
 Theorem check_mode_iff l : check_mode l = true <-> (l <> [] /\ sorted l).
-Proof. split; [apply check_mode_sound | intros [? ?]; now apply check_mode_sorted]. Qed.
+Proof.
+  split; [intros H; split; [now apply check_mode_nonempty | now apply check_mode_sound]
+        | intros [? ?]; now apply check_mode_sorted].
+Qed.
 
 (* ------------------------------------------------------------------------ *)
 (* refutations (findings) and non-vacuity                                     *)
@@ -1000,7 +1009,7 @@ Proof.
   split; [vm_compute; reflexivity|]. split; [discriminate|].
   split; [vm_compute; reflexivity|]. split; [vm_compute; reflexivity|].
   split; [|vm_compute; reflexivity].
-  apply (proj2 (check_mode_sound idem_sorted eq_refl)).
+  apply (check_mode_sound idem_sorted eq_refl).
 Qed.
 
 (* FULL STATEMENT: forall n evs, pre n evs -> exists out, winsort n evs = Some out.
@@ -1032,3 +1041,18 @@ Example ex1_too_small : preb 17 ex1 = false /\ winsort 17 ex1 = None.
 Proof. split; vm_compute; reflexivity. Qed.
 Example ex1_again : winsort 18 ex1_out = Some ex1_out /\ check_mode ex1_out = true.
 Proof. split; vm_compute; reflexivity. Qed.
+
+(* outside the precondition the tool may exit 0 and leave an unsorted stream
+   without saying anything (documented limits: only OU[ .. OU] is looked at, and
+   OU] itself is never moved): a body event later than its closing marker, an
+   out-of-order event outside any region, a region that is never closed *)
+Example silent_body_after_marker :
+  winsort 9 [Pl 1 0; Rs 5 1; Pl 3 2; Pl 9 3; Re 6 4; Pl 7 5] = Some [Pl 1 0; Pl 3 2; Rs 5 1; Pl 9 3; Re 6 4; Pl 7 5]
+  /\ check_mode [Pl 1 0; Pl 3 2; Rs 5 1; Pl 9 3; Re 6 4; Pl 7 5] = false.
+Proof. split; vm_compute; reflexivity. Qed.
+Example silent_outside_region :
+  winsort 9 [Pl 5 0; Pl 3 1; Pl 7 2] = Some [Pl 5 0; Pl 3 1; Pl 7 2].
+Proof. vm_compute; reflexivity. Qed.
+Example silent_unterminated :
+  winsort 9 [Pl 5 0; Rs 6 1; Pl 3 2; Pl 4 3] = Some [Pl 5 0; Rs 6 1; Pl 3 2; Pl 4 3].
+Proof. vm_compute; reflexivity. Qed.
